@@ -6,6 +6,7 @@ From Coq Require Import List QArith Reals Qreals Lia Lra Arith Bool NArith Permu
 From NV Require Import Scalar.Ops Model.Common Model.Knots Model.LinAlg
   Proofs.LinAlgSums Proofs.LinAlgR Proofs.LinAlgSolve Proofs.LinAlgPivot Proofs.LinAlgDet Proofs.LinAlgHist Transfer.LinAlgT.
 From NV Require Import Proofs.LinAlgSDD Proofs.LinAlgDetGen Transfer.LinAlgT Transfer.LinAlgSDDT.
+From NV Require Import Model.Basis Model.Knots Model.Eval Model.Fit Proofs.Boehm Proofs.BasisR Proofs.FitR Proofs.FitSurfR Proofs.FitSurfMore Proofs.CollocationLU Proofs.CollocationLUMore Proofs.PosDefLU Proofs.ApproxLU Proofs.CollocationLUSurf Transfer.FitT Transfer.CollocationLUT.
 Import ListNotations.
 
 (* ------------------------------------------------------------------ helpers equal their definitions *)
@@ -332,3 +333,54 @@ Theorem C16_lu_solve_sdd_correct_Q : forall (A b : list (list Q)) dim,
       (sumr Qops 0 n (fun k => omul Qops (get2 Qops A i k) (get2 Qops X k c)) == get2 Qops b i c)%Q.
 Proof. exact lu_solve_sdd_correct_Q. Qed.
 Print Assumptions C16_lu_solve_sdd_correct_Q.
+
+(* ====================== round 2 (Proofs/CollocationLU*.v, PosDefLU.v): lu_solve always returns a result on spline collocation matrices ====================== *)
+(* ================= Props/C16.v ================= *)
+(* [G] collocation half of the C16 sentence: lu_solve (plain Doolittle, no pivoting) ALWAYS returns a result on the
+   spline collocation matrices of global interpolation, and the result solves the system *)
+Theorem C16_lu_solve_collocation_correct : forall (p n dim : nat) (uk : list R) (b : list (list R)), (1 <= p < n)%nat -> length uk = n ->
+  nth 0 uk 0%R = 0%R -> nth (n - 1) uk 0%R = 1%R -> (forall i, (S i < n)%nat -> (nth i uk 0 < nth (S i) uk 0)%R) -> rect n dim b ->
+  let A := build_coeff_matrix Rops p (compute_knot_vector Rops p n uk) uk n in
+  exists X, lu_solve Rops A b = Ok X /\ rect n dim X /\
+    forall i c, (i < n)%nat -> (c < dim)%nat -> sumr Rops 0 n (fun k => get2 Rops A i k * get2 Rops X k c)%R = get2 Rops b i c.
+Proof. exact lu_solve_collocation_correct. Qed.
+Print Assumptions C16_lu_solve_collocation_correct.
+
+(* [G] general tool: non-zero leading principal minors (of the transpose) <=> LU without pivoting exists *)
+Theorem C16_pivots_from_leading_minors : forall A : list (list R),
+  (forall m, (m < length A)%nat -> leibF (S m) (fun j i => get2 Rops A i j) <> 0%R) ->
+  forall i, (i < length A)%nat -> get2 Rops (snd (doolittle Rops A)) i i <> 0%R.
+Proof. exact CollocDet.doolittle_pivots_from_minors. Qed.
+Print Assumptions C16_pivots_from_leading_minors.
+
+(* [G] executable instance *)
+Theorem C16_interp_solve_returns_Q : forall (p n : nat) (uk : list Q), (1 <= p < n)%nat -> length uk = n ->
+  (nth 0 uk 0 == 0)%Q -> (nth (n - 1) uk 0 == 1)%Q -> (forall i, (S i < n)%nat -> (nth i uk 0 < nth (S i) uk 0)%Q) ->
+  forall (pts : list (list Q)) dim, rectQ n dim pts ->
+  exists P, interp_1d Qops p (compute_knot_vector Qops p n uk) uk pts = Ok P /\
+    forall i c, (i < n)%nat -> (c < dim)%nat ->
+      (sumr Qops 0 n (fun k => omul Qops (get2 Qops (build_coeff_matrix Qops p (compute_knot_vector Qops p n uk) uk n) i k) (get2 Qops P k c)) == get2 Qops pts i c)%Q.
+Proof. exact interp_1d_Q_returns. Qed.
+Print Assumptions C16_interp_solve_returns_Q.
+
+(* [G] every size: a positive definite matrix (x^T A x > 0 for x <> 0 on 0..n-1; symmetry not needed) has only non-zero Doolittle pivots *)
+Theorem C16_pd_pivots_nonzero : forall A : list (list R),
+  (forall x : nat -> R, (exists i, (0 <= i < length A)%nat /\ x i <> 0%R) ->
+     (0 < sumr Rops 0 (length A - 0) (fun r => sumr Rops 0 (length A - 0) (fun c => x r * get2 Rops A r c * x c)))%R) ->
+  forall i, (i < length A)%nat -> get2 Rops (snd (doolittle Rops A)) i i <> 0%R.
+Proof. exact pd_pivots_nonzero. Qed.
+Print Assumptions C16_pd_pivots_nonzero.
+
+(* [G] non-zero Doolittle pivots  ==>  trivial kernel *)
+Theorem C16_nonzero_pivots_trivial_kernel : forall (A : list (list R)) (x : nat -> R),
+  (forall i, (i < length A)%nat -> get2 Rops (snd (doolittle Rops A)) i i <> 0%R) ->
+  (forall r, (r < length A)%nat -> sumr Rops 0 (length A) (fun c => get2 Rops A r c * x c)%R = 0%R) -> forall c, (c < length A)%nat -> x c = 0%R.
+Proof. exact doolittle_trivial_kernel. Qed.
+Print Assumptions C16_nonzero_pivots_trivial_kernel.
+
+(* [G] Gram matrices: N with a trivial kernel  ==>  N^T N has only non-zero Doolittle pivots *)
+Theorem C16_gram_pivots_nonzero : forall (Nm : list (list R)) rows n, rect rows n Nm -> (0 < rows)%nat -> (0 < n)%nat ->
+  (forall x, (forall i, (i < rows)%nat -> sumr Rops 0 n (fun j => get2 Rops Nm i j * x j)%R = 0%R) -> forall j, (j < n)%nat -> x j = 0%R) ->
+  forall i, (i < n)%nat -> get2 Rops (snd (doolittle Rops (mmul Rops (transpose Rops Nm) Nm))) i i <> 0%R.
+Proof. exact gram_pivots_nonzero. Qed.
+Print Assumptions C16_gram_pivots_nonzero.
